@@ -421,7 +421,7 @@ func mutPoints(m protoreflect.Message, path string, out *[]mutPoint) {
 				if fd.Kind() == protoreflect.MessageKind {
 					ml.Append(ml.NewElement())
 				} else {
-					ml.Append(mutScalar(fd, fd.Default()))
+					ml.Append(mutScalar(fd, zeroScalar(fd)))
 				}
 			}})
 			*out = append(*out, mutPoint{p + "[-]", func() { m.Mutable(fd).List().Truncate(l.Len() - 1) }})
@@ -439,6 +439,21 @@ func mutPoints(m protoreflect.Message, path string, out *[]mutPoint) {
 		default:
 			*out = append(*out, mutPoint{p + "=", func() { m.Set(fd, mutScalar(fd, m.Get(fd))) }})
 		}
+	}
+}
+
+func zeroScalar(fd protoreflect.FieldDescriptor) protoreflect.Value {
+	switch fd.Kind() {
+	case protoreflect.StringKind:
+		return protoreflect.ValueOfString("")
+	case protoreflect.BoolKind:
+		return protoreflect.ValueOfBool(false)
+	case protoreflect.EnumKind:
+		return protoreflect.ValueOfEnum(0)
+	case protoreflect.Int32Kind:
+		return protoreflect.ValueOfInt32(0)
+	default:
+		return protoreflect.ValueOfInt64(0)
 	}
 }
 
